@@ -73,6 +73,10 @@ type Scn struct {
 	ID     int     `json:"id"`
 	Seed   int64   `json:"seed"`
 	NoPerm bool    `json:"noperm,omitempty"`
+	// Pre: scenario blobs the source already holds when the first incarnation starts (stored before the sync
+	// handler was attached: no hook ran, no queue row exists, the destination does not have them).  An upload of
+	// such a blob is a receive like any other: it must be enqueued and delivered.
+	Pre []int `json:"pre,omitempty"`
 }
 
 const (
@@ -949,6 +953,13 @@ func runOne(scn *Scn) []int {
 	if scn.N > nWorld {
 		r.nextWk, r.lastWk = scn.N+1, maxBlob
 	}
+	for _, j := range scn.Pre {
+		if scn.Cfg == "index" && !scn.NoPerm && j >= 1 && j <= nWorld {
+			j = ixPerms[scn.ID%len(ixPerms)][j-1]
+		}
+		r.srcMem.Put(u.refs[j], u.data[j])
+		r.lg.Emit(gate.Event{"ev": "pre", "b": j, "res": ""})
+	}
 	r.exec()
 	nWake.Add(int64(r.wakes))
 	emitRun(scn, project(r.lg.Events()))
@@ -966,6 +977,14 @@ func randomScn(rng *rand.Rand, id int) *Scn {
 	s := &Scn{Cfg: "mem", N: 2 + rng.Intn(3), Pool: []int{1, 2, 5}[rng.Intn(3)], ID: id}
 	if rng.Intn(4) == 0 {
 		s.Cfg = "index"
+	}
+	if rng.Intn(4) == 0 {
+		// some blobs are at the source before the handler is attached
+		for b := 1; b <= s.N; b++ {
+			if rng.Intn(2) == 0 {
+				s.Pre = append(s.Pre, b)
+			}
+		}
 	}
 	np := 1 + rng.Intn(3)
 	dk := []string{"ok", "error", "wrongsize", "after"}
